@@ -74,9 +74,11 @@ class HTML:
 
                     # Check for spaces in attributes. This would result in
                     # invalid style strings otherwise.
-                    if " " in fg:
+                    # (Style strings are split with `str.split()`: any
+                    # whitespace character separates words.)
+                    if any(c.isspace() for c in fg):
                         raise ValueError('"fg" attribute contains a space.')
-                    if " " in bg:
+                    if any(c.isspace() for c in bg):
                         raise ValueError('"bg" attribute contains a space.')
 
                     if add_to_name_stack:
